@@ -184,6 +184,10 @@ def make_scenario(seed, idx, tool):
         if idx % 2 == 1:
             # a file name with a run of blanks and a tab in it: the map's format is "<id> <path>", the path being the rest of the line
             utts[(a + 1) % len(utts)]["spaced"] = True
+    if tool == "kaldi" and kind == "dither" and idx % 2 == 0 and comp["name"] == "stft":
+        # one recording of more than 2^20 samples (a minute or two of speech) among the dithered ones: as reproducible under --seed as the rest
+        k = next(j for j, u in enumerate(utts) if not u.get("excluded") and j not in (i_one, i_short))
+        utts[k]["n"] = 2 ** 20 + 3 + idx
     if tool == "kaldi" and idx % 4 == 2 and kind == "pipeline" and comp["name"] == "stft":
         # one long recording (beyond 2 x 16384 samples - any blockwise processing has block boundaries inside it), pre-emphasised
         k = next(j for j, u in enumerate(utts) if not u.get("excluded") and j not in (i_one, i_short))
